@@ -299,8 +299,18 @@ def conclude(prop, tier, seed, mon, results, findings, infra, t0, out, write_evi
         os.makedirs(evdir, exist_ok=True)
         with open(os.path.join(evdir, f"{prop}.json"), "w") as f:
             json.dump(ev, f, indent=1, default=str)
-    for key, kh in sorted(known_hit.items()):
-        out.write(f"KNOWN-FINDING: property={prop} {key}: {kh['what']} (seen {kh['count']}x)\n")
+    # one line per listed (open) finding of this property, with how often this run met it
+    listed = {}
+    for fd in findings:
+        if fd["property"] == prop and fd.get("status", "open") == "open":
+            listed.setdefault(fd["key"], fd["description"])
+    if write_evidence:
+        for key, what in sorted(listed.items()):
+            cnt = known_hit.get(key, {}).get("count", 0)
+            out.write(f"KNOWN-FINDING: property={prop} {key}: {what} (met {cnt}x in this run)\n")
+    else:
+        for key, kh in sorted(known_hit.items()):
+            out.write(f"KNOWN-FINDING: property={prop} {key}: {kh['what']} (met {kh['count']}x in this run)\n")
     out.write(f"{prop} tier={tier} seed={seed}: cases={n} executions={n_exec} nontrivial-distinct={len(sigs)} "
               f"held={verdicts.get('held', 0)} violated={verdicts.get('violated', 0)} "
               f"inconclusive={inconc} wall={wall:.1f}s\n")
